@@ -38,6 +38,10 @@ import (
 //   op:     P<c> controller c calls Pause      R<c> controller c calls Resume
 //           S<w> worker w's context is cancelled (worker exit / its stage stops)
 //           X    every worker's context is cancelled (shutdown)
+//           H<w> worker w (archiver or postprocessor) is handed an item: the real worker takes it
+//                from its input channel, handles it (skip path) and blocks passing it on - it is
+//                BUSY, not looking at its pause channels, until
+//           D<w> the driver receives the item from worker w's output channel
 // After every round the driver waits until the process is QUIESCENT - decided on a consistent
 // runtime.Stack(all) snapshot: every goroutine of the experiment is parked in a channel
 // operation, select, mutex or WaitGroup - so a call that never returns is detected as such at
@@ -52,13 +56,23 @@ type c14Worker struct {
 	cancel func()
 	done   <-chan struct{}
 	gid    atomic.Int64
+	in     chan *models.Item
+	out    chan *models.Item
+	taken  atomic.Int64 // items the worker has received from its input channel
+	passed atomic.Int64 // items the driver has received from its output channel
+	last   int          // position at the last observation
 }
 
+func (w *c14Worker) holding() bool { return w.taken.Load() > w.passed.Load() }
+
 type c14Ctl struct {
-	busy atomic.Bool // a call is in progress (or blocked for good)
+	busy atomic.Bool  // a call is in progress (or blocked for good)
+	gid  atomic.Int64 // goroutine of that call
+	last int          // phase at the last observation
 }
 
 type c14Run struct {
+	abort    chan struct{}
 	keys0    []*pause.ControlChans // the subscriptions of the workers, taken once all have subscribed
 	ws       []*c14Worker
 	cs       []*c14Ctl
@@ -156,8 +170,9 @@ func (r *c14Run) quiesce() []c14G {
 				quiet = false
 				break
 			}
-			// a stage worker counts as settled only in its main select or in the acknowledgement
-			if g.marked && strings.Contains(g.text, ").worker(") && c14InAck(g) == 3 {
+			// a stage worker counts as settled only in its main select, in the acknowledgement,
+			// or - while it holds an item the driver has not taken back - anywhere it is parked
+			if g.marked && strings.Contains(g.text, ").worker(") && c14InAck(g) == 3 && !r.holdingGid(g.id) {
 				quiet = false
 				break
 			}
@@ -172,6 +187,15 @@ func (r *c14Run) quiesce() []c14G {
 		runtime.Gosched()
 		time.Sleep(50 * time.Microsecond)
 	}
+}
+
+func (r *c14Run) holdingGid(id int64) bool {
+	for _, w := range r.ws {
+		if w.gid.Load() == id {
+			return w.holding()
+		}
+	}
+	return false
 }
 
 var c14SrcCache sync.Map // "file:line" -> bool (acknowledging send)
@@ -222,6 +246,7 @@ func c14InAck(g c14G) int {
 func c14Spawn(kind byte, w *c14Worker) {
 	in := make(chan *models.Item)
 	out := make(chan *models.Item)
+	w.in, w.out = in, out
 	on := func() { w.gid.Store(c14Goid()) }
 	switch kind {
 	case 'p':
@@ -253,6 +278,7 @@ func c14Caller(r *c14Run, c *c14Ctl, resume bool, start <-chan struct{}, ready *
 		}
 		c.busy.Store(false)
 	}()
+	c.gid.Store(c14Goid())
 	ready.Done()
 	<-start
 	c14Spin(jit)
@@ -270,9 +296,32 @@ func c14Stopper(cancel func(), start <-chan struct{}, ready *sync.WaitGroup, jit
 	cancel()
 }
 
+func c14Feeder(w *c14Worker, abort <-chan struct{}, start <-chan struct{}, ready *sync.WaitGroup, jit time.Duration) {
+	ready.Done()
+	<-start
+	c14Spin(jit)
+	it := models.NewItem("c14-item", &models.URL{Raw: "http://c14.invalid/"}, "")
+	select {
+	case w.in <- it:
+		w.taken.Add(1)
+	case <-abort:
+	}
+}
+
+func c14Drainer(w *c14Worker, abort <-chan struct{}, start <-chan struct{}, ready *sync.WaitGroup, jit time.Duration) {
+	ready.Done()
+	<-start
+	c14Spin(jit)
+	select {
+	case <-w.out:
+		w.passed.Add(1)
+	case <-abort:
+	}
+}
+
 type c14Obs struct {
 	pcl    int // subscriptions that were removed and whose PauseCh is closed
-	idle   []bool
+	idle   []int // per controller: 0 no call in progress, 1 in Resume collecting (wg.Wait), 2 waiting for the mutex, 3 elsewhere
 	paused bool
 	ws     []int
 	subs   int
@@ -282,8 +331,25 @@ type c14Obs struct {
 
 func (r *c14Run) observe(gs []c14G) c14Obs {
 	o := c14Obs{paused: pause.IsPaused(), subs: pause.VerifC14Subscribers(), panic: r.panicked.Load(), tmo: r.timedOut}
+	byID := map[int64]c14G{}
+	for _, g := range gs {
+		byID[g.id] = g
+	}
 	for _, c := range r.cs {
-		o.idle = append(o.idle, !c.busy.Load())
+		ph := 0
+		if c.busy.Load() {
+			ph = 3
+			if g, ok := byID[c.gid.Load()]; ok {
+				switch {
+				case strings.Contains(g.text, "sync.(*Mutex).Lock"):
+					ph = 2
+				case strings.Contains(g.text, "pause.Resume") && strings.Contains(g.text, "sync.(*WaitGroup).Wait"):
+					ph = 1
+				}
+			}
+		}
+		c.last = ph
+		o.idle = append(o.idle, ph)
 	}
 	cur := map[*pause.ControlChans]bool{}
 	for _, k := range pause.VerifC14Keys() {
@@ -308,23 +374,21 @@ func (r *c14Run) observe(gs []c14G) c14Obs {
 			}
 		}
 	}
-	byID := map[int64]c14G{}
-	for _, g := range gs {
-		byID[g.id] = g
-	}
 	for _, w := range r.ws {
+		code := 3
 		select {
 		case <-w.done:
-			o.ws = append(o.ws, 2)
-			continue
+			code = 2
 		default:
+			if g, ok := byID[w.gid.Load()]; ok {
+				code = c14InAck(g)
+				if code == 3 && w.holding() {
+					code = 4 // busy: inside an item
+				}
+			}
 		}
-		g, ok := byID[w.gid.Load()]
-		if !ok {
-			o.ws = append(o.ws, 3)
-			continue
-		}
-		o.ws = append(o.ws, c14InAck(g))
+		w.last = code
+		o.ws = append(o.ws, code)
 	}
 	return o
 }
@@ -377,6 +441,10 @@ func c14Parse(in string) (stages string, nc int, rounds [][]c14Op, ok bool) {
 				if op.arg >= len(stages) {
 					return "", 0, nil, false
 				}
+			case 'H', 'D': // only stages whose item hand-over is a select with a ctx.Done arm and no real work for a fresh item
+				if op.arg >= len(stages) || (stages[op.arg] != 'a' && stages[op.arg] != 'o') {
+					return "", 0, nil, false
+				}
 			case 'X':
 			default:
 				return "", 0, nil, false
@@ -398,6 +466,10 @@ func c14CoqOp(o c14Op) string {
 		return fmt.Sprintf("OResume %d", o.arg)
 	case 'S':
 		return fmt.Sprintf("OStop %d", o.arg)
+	case 'H':
+		return fmt.Sprintf("OHold %d", o.arg)
+	case 'D':
+		return fmt.Sprintf("ORelease %d", o.arg)
 	}
 	return "OStopAll"
 }
@@ -405,7 +477,7 @@ func c14CoqOp(o c14Op) string {
 func c14CoqObs(o c14Obs) string {
 	var idle, ws []string
 	for _, b := range o.idle {
-		idle = append(idle, coqBool(b))
+		idle = append(idle, fmt.Sprintf("%d", b))
 	}
 	for _, w := range o.ws {
 		ws = append(ws, fmt.Sprintf("%d", w))
@@ -421,7 +493,7 @@ func c14ExecLocal(in string) (res Result, leak bool) {
 		return Result{Term: "PC 0 0 []", Tags: []string{"malformed"}}, false
 	}
 	pause.VerifC14Reset()
-	r := &c14Run{}
+	r := &c14Run{abort: make(chan struct{})}
 	for i := 0; i < len(stages); i++ {
 		w := &c14Worker{kind: stages[i]}
 		c14Spawn(stages[i], w)
@@ -445,7 +517,7 @@ func c14ExecLocal(in string) (res Result, leak bool) {
 		return time.Duration(jr.Intn(33)) * 125 * time.Nanosecond
 	}
 	var terms []string
-	pausedLive, afterPause, conc, nP, nR, nS := false, false, false, 0, 0, 0
+	pausedLive, afterPause, conc, nP, nR, nS, nH := false, false, false, 0, 0, 0, 0
 	cancelled := make([]bool, len(stages))
 	for _, round := range rounds {
 		if len(round) > 1 {
@@ -476,6 +548,19 @@ func c14ExecLocal(in string) (res Result, leak bool) {
 				}
 				ready.Add(1)
 				go c14Caller(r, c, op.kind == 'R', start, &ready, jitter())
+			case 'H':
+				// only a worker seen in its main select takes an item now (a busy, paused or
+				// departed one does not; the model's LWork is not enabled there either)
+				if w := r.ws[op.arg]; w.last == 0 && !w.holding() {
+					nH++
+					ready.Add(1)
+					go c14Feeder(w, r.abort, start, &ready, jitter())
+				}
+			case 'D':
+				if w := r.ws[op.arg]; w.last == 4 && w.holding() {
+					ready.Add(1)
+					go c14Drainer(w, r.abort, start, &ready, jitter())
+				}
 			case 'S':
 				stops = append(stops, op.arg)
 			case 'X':
@@ -497,6 +582,7 @@ func c14ExecLocal(in string) (res Result, leak bool) {
 		terms = append(terms, fmt.Sprintf("(%s, %s)", coqList(ops), c14CoqObs(r.observe(gs))))
 	}
 	// teardown: cancel everything, let whatever can leave leave
+	close(r.abort)
 	for _, w := range r.ws {
 		w.cancel()
 	}
@@ -517,6 +603,9 @@ func c14ExecLocal(in string) (res Result, leak bool) {
 	}
 	if nS > 0 && pausedLive {
 		tags = append(tags, "stop-with-pause")
+	}
+	if nH > 0 {
+		tags = append(tags, "busy-workers")
 	}
 	kinds := map[byte]bool{}
 	for i := 0; i < len(stages); i++ {
@@ -655,6 +744,53 @@ func c14Stages(r *Rng, n int) string {
 	return string(b)
 }
 
+// c14HoldOp: H or D on a random archiver/postprocessor worker ("" when there is none)
+func c14HoldOp(r *Rng, stages string) string {
+	var idx []int
+	for i := 0; i < len(stages); i++ {
+		if stages[i] == 'a' || stages[i] == 'o' {
+			idx = append(idx, i)
+		}
+	}
+	if len(idx) == 0 {
+		return ""
+	}
+	k := "H"
+	if r.Chance(45) {
+		k = "D"
+	}
+	return fmt.Sprintf("%s%d", k, idx[r.Intn(len(idx))])
+}
+
+// c14Overlap: a Pause issued while a Resume is in flight waiting for a busy worker, with a few
+// random ops around it:  H_i ; P_a ; R_b ; P_c [; more] ; D_i ; ...
+func c14Overlap(r *Rng, conc bool) string {
+	nw := 2 + r.Intn(5)
+	st := []byte(c14Stages(r, nw))
+	i := r.Intn(nw)
+	st[i] = "ao"[r.Intn(2)]
+	nc := 2 + r.Intn(2)
+	a, b := r.Intn(nc), r.Intn(nc)
+	c := (b + 1 + r.Intn(nc-1)) % nc
+	ops := []string{fmt.Sprintf("H%d", i), fmt.Sprintf("P%d", a), fmt.Sprintf("R%d", b), fmt.Sprintf("P%d", c)}
+	if r.Chance(30) {
+		ops = append([]string{c14RandOp(r, nw, nc)}, ops...)
+	}
+	if r.Chance(30) { // a second Pause / a Resume from the third controller while blocked
+		ops = append(ops, c14RandOp(r, nw, nc))
+	}
+	ops = append(ops, fmt.Sprintf("D%d", i))
+	for k := r.Intn(3); k > 0; k-- {
+		ops = append(ops, c14RandOp(r, nw, nc))
+	}
+	sep := ";"
+	if conc && r.Bool() { // release the worker and issue the next call together
+		n := len(ops)
+		ops = append(ops[:n-2], ops[n-2]+","+ops[n-1])
+	}
+	return fmt.Sprintf("w=%s c=%d ops=%s", string(st), nc, strings.Join(ops, sep))
+}
+
 func c14RandOp(r *Rng, nw, nc int) string {
 	switch x := r.Intn(20); {
 	case x < 7:
@@ -681,17 +817,26 @@ func genPause(r *Rng, i int, tier string) string {
 		st := []string{"pa", "of", "pf", "ao"}[i%4]
 		return fmt.Sprintf("w=%s c=2 ops=%s", st, strings.Join(c14Word(i), ";"))
 	}
+	if i%3 == 0 {
+		return c14Overlap(r, false)
+	}
 	nw := r.Intn(7)
 	if r.Chance(10) {
 		nw = 8 + r.Intn(24)
 	}
 	nc := 1 + r.Intn(3)
 	n := 4 + r.Intn(8)
+	st := c14Stages(r, nw)
 	ops := make([]string, n)
 	for j := range ops {
 		ops[j] = c14RandOp(r, nw, nc)
+		if r.Chance(25) {
+			if h := c14HoldOp(r, st); h != "" {
+				ops[j] = h
+			}
+		}
 	}
-	return fmt.Sprintf("w=%s c=%d ops=%s", c14Stages(r, nw), nc, strings.Join(ops, ";"))
+	return fmt.Sprintf("w=%s c=%d ops=%s", st, nc, strings.Join(ops, ";"))
 }
 
 // concurrent: rounds of several simultaneous ops (at most one per controller); every fourth
@@ -708,9 +853,13 @@ func genPauseConc(r *Rng, i int, tier string) string {
 		}
 		return fmt.Sprintf("w=%s c=2 ops=%s", c14Stages(r, nw), strings.Join(ops, ";"))
 	}
+	if i%4 == 1 {
+		return c14Overlap(r, true)
+	}
 	nw := 1 + r.Intn(6)
 	nc := 2 + r.Intn(3)
 	nr := 2 + r.Intn(5)
+	cst := c14Stages(r, nw)
 	var rounds []string
 	for j := 0; j < nr; j++ {
 		used := map[int]bool{}
@@ -718,6 +867,11 @@ func genPauseConc(r *Rng, i int, tier string) string {
 		k := 1 + r.Intn(4)
 		for len(ops) < k {
 			op := c14RandOp(r, nw, nc)
+			if r.Chance(20) {
+				if h := c14HoldOp(r, cst); h != "" {
+					op = h
+				}
+			}
 			if op[0] == 'P' || op[0] == 'R' {
 				c, _ := strconv.Atoi(op[1:])
 				if used[c] {
@@ -732,7 +886,7 @@ func genPauseConc(r *Rng, i int, tier string) string {
 		}
 		rounds = append(rounds, strings.Join(ops, ","))
 	}
-	return fmt.Sprintf("w=%s c=%d ops=%s", c14Stages(r, nw), nc, strings.Join(rounds, ";"))
+	return fmt.Sprintf("w=%s c=%d ops=%s", cst, nc, strings.Join(rounds, ";"))
 }
 
 func shrinkPause(in string) []string {
@@ -778,7 +932,7 @@ func shrinkPause(in string) []string {
 		used := false
 		for _, rd := range rounds {
 			for _, o := range rd {
-				if o.kind == 'S' && o.arg == n-1 {
+				if (o.kind == 'S' || o.kind == 'H' || o.kind == 'D') && o.arg == n-1 {
 					used = true
 				}
 			}
@@ -825,7 +979,7 @@ func init() {
 		Header:   c14Header,
 		CaseType: "pcase",
 		Footer:   stdFooter,
-		Rule:     "one case = a population of real stage workers (any mix of the four stages), 1-3 controllers and a SEQUENCE of Pause_c / Resume_c / worker-cancel / shutdown invocations, each followed by a wait for quiescence; all words of length <= 3 (thorough <= 4) over {P0,P1,R0,R1,S0,S1,X} on 2 workers, then random sequences of 4-11 ops on 0-31 workers; distinct by input text; non-trivial when a Pause reaches at least one live worker and a Resume or a cancellation follows it",
+		Rule:     "one case = a population of real stage workers (any mix of the four stages), 1-3 controllers and a SEQUENCE of Pause_c / Resume_c / worker-cancel / shutdown invocations, each followed by a wait for quiescence; all words of length <= 3 (thorough <= 4) over {P0,P1,R0,R1,S0,S1,X} on 2 workers, then random sequences of 4-11 ops on 0-31 workers in which archiver/postprocessor workers are also made BUSY (handed an item that the driver takes back later), a third of them in the shape 'Pause issued while a Resume is in flight waiting for a busy worker'; distinct by input text; non-trivial when a Pause reaches at least one live worker and a Resume or a cancellation follows it",
 		Gen:      genPause,
 		Exec:     execPause,
 		Shrink:   shrinkPause,
@@ -836,7 +990,7 @@ func init() {
 		Header:   c14Header,
 		CaseType: "pcase",
 		Footer:   "\nDefinition DIFF := Eval vm_compute in cdiffs cases.\nPrint DIFF.\nDefinition MON := Eval vm_compute in mons cases.\nPrint MON.\n",
-		Rule:     "one case = real stage workers and ROUNDS of simultaneously issued invocations (calls from distinct controllers, cancellations, shutdown) with a wait for quiescence after each round; monitors only; every fourth case is the Unsubscribe/Pause race shape (16-48 workers, Pause together with shutdown); non-trivial as for the sequential driver",
+		Rule:     "one case = real stage workers and ROUNDS of simultaneously issued invocations (calls from distinct controllers, cancellations, shutdown) with a wait for quiescence after each round; monitors only; every fourth case is the Unsubscribe/Pause race shape (16-48 workers, Pause together with shutdown), every fourth the Pause-during-Resume-with-a-busy-worker shape; non-trivial as for the sequential driver",
 		Gen:      genPauseConc,
 		Exec:     execPause,
 		Shrink:   shrinkPause,
